@@ -18,7 +18,7 @@ def build(ctx):
     eng = ctx.engine('lib', loop_bound=8)
     K = 2 if ctx.tier == 'quick' else 3
     ctx.bounds = {'modules returned by the resolver': '0..%d' % K, 'input': 'a path and standard input'}
-    ctx.outside = ['ModResolver: which files are reached (mod declarations, #[path], cfg_if!, directory ownership)', 'contains_skip / the ignore matcher / the generated-marker scan themselves',
+    ctx.outside = ['ModResolver beyond visit_sub_mod / peek_sub_mod / find_external_module / ParseSess::default_submod_path: the directory bookkeeping of inline modules, cfg_if! / cfg_match! visitors, #[path] attribute parsing, rustc_expand itself', 'contains_skip / the ignore matcher / the generated-marker scan themselves',
                    'de-duplication of files reached twice (BTreeMap keyed by FileName in the resolver)']
     ctx.assumptions = ['ModResolver::visit_crate = Ok(k modules, module 0 = the root) | Err', 'contains_skip / ignore_file / is_generated_file symbolic per module',
                        'the ignore set never matches standard input']
@@ -67,6 +67,10 @@ def build(ctx):
     if not ncomplete:
         raise Inconclusive('format_project: no complete path')
     ctx.cover('cover/some-complete-run', [z3.BoolVal(ncomplete > 0)])
+    import resolvermodel
+    resolvermodel.part_submod_fallback(ctx, eng, 'C13', resolvermodel.replay_submod_fallback)
+    resolvermodel.part_find_external_module(ctx, eng, 'C13', resolvermodel.replay_find_external_module)
+    resolvermodel.part_visit_sub_mod(ctx, eng, 'C13', resolvermodel.replay_visit_sub_mod)
 
 
 def cli_findings():
